@@ -771,6 +771,18 @@ func (g *Gen) opXchg() bool {
 	if g.chance(0.03) && len(rem) > 0 {
 		add = append(add, rem[0]) // added and removed
 	}
+	// through ExchangeN when the added components have an instantiation
+	path := "u"
+	if len(add) > 0 && g.chance(g.cfg.typedBias) {
+		cand := g.tupleOrder(add)
+		var cs []*regComp
+		for _, n := range cand {
+			cs = append(cs, g.h.comps[n])
+		}
+		if _, ok := exchangeCtors[tupleKey(cs)]; ok {
+			add, path = cand, "t"
+		}
+	}
 	var parts []string
 	for _, n := range add {
 		s := fmt.Sprintf("+c%d:%d", n, g.val())
@@ -782,7 +794,7 @@ func (g *Gen) opXchg() bool {
 	for _, n := range rem {
 		parts = append(parts, fmt.Sprintf("-c%d", n))
 	}
-	g.emit(strings.TrimSpace(fmt.Sprintf("xchg %s u %s%s", el, strings.Join(parts, " "), g.superRel(add, "u"))))
+	g.emit(strings.TrimSpace(fmt.Sprintf("xchg %s %s %s%s", el, path, strings.Join(parts, " "), g.superRel(add, path))))
 	return true
 }
 
